@@ -211,6 +211,9 @@ func c10Restore(sc *C10Sc, env *Env) *Violation {
 		}
 	}
 	env.Fire("executed-twice")
+	if v := c10TypeTwin(w, env); v != nil {
+		return v
+	}
 	// crash/restart at boundary k: the original continues (= ref), a CPU rebuilt
 	// from copies of the durable state must stay equal at every later boundary
 	walker := c10Machine(w)
@@ -262,6 +265,82 @@ func c10Restore(sc *C10Sc, env *Env) *Violation {
 		}
 	}
 	env.NonTrivial = true
+	return nil
+}
+
+// streamIO is a plain (non-recording) port device with the Bus's input stream.
+type streamIO struct {
+	seed uint64
+	n    uint64
+}
+
+func (s *streamIO) In(p uint8) uint8 {
+	v := world.InByte(s.seed, s.n, p)
+	s.n++
+	return v
+}
+
+func (s *streamIO) Out(uint8, uint8) {}
+
+// c10TypeTwin: "the outcome of a Step depends only on the public state and on
+// the bytes memory and ports return" - so it cannot depend on which Memory
+// implementation returns them. The same world runs on the recording Bus and,
+// with equal contents, directly on the library's own DumbMemory (and, for
+// short worlds, a fully populated MapMemory); registers, HALT, pending request
+// and notifications must agree at every boundary and the images at the end.
+// Only boundary-placed events are used (no bus hook exists on the bare types).
+func c10TypeTwin(w *C10World, env *Env) *Violation {
+	var evs []world.Event
+	for _, e := range w.Events {
+		if e.AtTick == 0 && !e.OnRet {
+			evs = append(evs, e)
+		}
+	}
+	w2 := *w
+	w2.Events = evs
+	kinds := []string{"DumbMemory"}
+	if w.Steps <= 120 {
+		kinds = append(kinds, "MapMemory")
+	}
+	for _, kind := range kinds {
+		a := c10Machine(&w2)
+		b := c10Machine(&w2)
+		var dm z80.DumbMemory
+		var mm z80.MapMemory
+		if kind == "DumbMemory" {
+			dm = make(z80.DumbMemory, 65536)
+			copy(dm, b.Bus.Mem[:])
+			b.CPU.Memory = dm
+		} else {
+			mm = make(z80.MapMemory, 65536)
+			for i, x := range b.Bus.Mem {
+				mm[uint16(i)] = x
+			}
+			b.CPU.Memory = mm
+		}
+		b.CPU.IO = &streamIO{seed: w.IOSeed}
+		for k := 0; k < w.Steps; k++ {
+			a.Step()
+			b.Step()
+			if d := world.DiffStates(a.CPU.States, b.CPU.States, false); d != "" || a.CPU.HALT != b.CPU.HALT ||
+				!world.SameRequest(a.CPU.Interrupt, b.CPU.Interrupt) || a.Cnt.RETI != b.Cnt.RETI || a.Cnt.RETN != b.Cnt.RETN {
+				return viol("memory-type-independence", "after Step %d the CPU on the library's %s differs from the same CPU on a plain 64 KiB device with equal contents (device!=%s):%s HALT %t/%t pending %s/%s", k, kind, kind, d, a.CPU.HALT, b.CPU.HALT, world.FmtRequest(a.CPU.Interrupt), world.FmtRequest(b.CPU.Interrupt))
+			}
+		}
+		for i := 0; i < 65536; i++ {
+			var x uint8
+			if kind == "DumbMemory" {
+				x = dm[i]
+			} else {
+				x = mm.Get(uint16(i))
+			}
+			if x != a.Bus.Mem[i] {
+				return viol("memory-type-independence", "final image differs at %04x between the plain device (%02x) and the library's %s (%02x)", i, a.Bus.Mem[i], kind, x)
+			}
+		}
+		env.Fire("type-twin/" + kind)
+		env.Steps += 2 * uint64(w.Steps)
+	}
 	return nil
 }
 
